@@ -14,7 +14,7 @@ property itself: every required ancestor present, testaments (plain and strict3)
 parents identical to the source's, check() clean, nothing lost, the second fetch copies nothing
 and leaves pack-names unchanged, failing calls leave the repository unchanged.
 """
-import _c03_common as C
+from props import _c03_common as C
 import daglib
 from vlib import Tag, Err
 
@@ -151,7 +151,7 @@ def _random_case(rng, u, pairs=FMT_PAIRS):
 
 
 def cases(rng, tier):
-    nuniv, per, maxn = (7, 9, 9) if tier == "quick" else (60, 16, 14)
+    nuniv, per, maxn = (6, 8, 9) if tier == "quick" else (60, 16, 14)
     for k in range(nuniv):
         u = C.gen_universe(rng, rng.randint(3, maxn), p_late=0.35, p_ghost=0.12)
         pairs = FMT_PAIRS if k % 2 == 0 else [("2a", "2a")] * 3 + [("pack-0.92", "2a"), ("2a", "pack-0.92")]
@@ -164,11 +164,13 @@ def cases(rng, tier):
         bigs += [(_big_universe(53, False), "pack-0.92", "pack-0.92"), (_big_universe(127, True), "2a", "2a")]
     for u, sf, tf in bigs:
         n = len(u["g"])
-        for cut in (n - 50, n - 51, n - 52, n - 101, n - 102, 1):
-            if cut < 0:
+        size = {cut: n - len(C.anc_present(u["g"], set(), [cut])) for cut in range(n - 1)}
+        for want in (49, 50, 51, 99, 100, 101):            # revisions to copy: just below, at, above the thresholds
+            cuts = [cut for cut, m in size.items() if m == want]
+            if not cuts:
                 continue
             fg = rng.random() < 0.5
-            yield _case(u, sf, tf, rng.choice(["local", "local", "smart"]), "local", seed=[cut], r=n - 1, fg=fg)
+            yield _case(u, sf, tf, rng.choice(["local", "local", "smart"]), "local", seed=[cuts[0]], r=n - 1, fg=fg)
         yield _case(u, sf, tf, seed=[], r=n - 1, fg=False, tv="smart")
         if tf == "2a":
             yield _case(u, sf, tf, fb=[n - 60], r=n - 1, fg=False)
@@ -244,6 +246,8 @@ def oracle(case, obs):
             bad.append("step %d: textparents_bad %r" % (k, so["textparents_bad"][:3]))
         if so["text_bad"]:
             bad.append("step %d: text_bad %r" % (k, so["text_bad"][:3]))
+        if so["sig_bad"]:
+            bad.append("step %d: sig_bad %r" % (k, so["sig_bad"][:5]))
         if so["unreadable"]:
             bad.append("step %d: unreadable %r" % (k, so["unreadable"][:4]))
         if so["check"]:
